@@ -219,6 +219,12 @@ func corpus() []CaseSpec {
 		post(10, `{"bodyid":10,"a":1}`), {Kind: "config", CfgStatic: []VRef{{N: 0}}}, {Kind: "reload"},
 		post(20, `{"bodyid":20,"a":1}`), del(10), {Kind: "commit"}, {Kind: "newversion"}},
 		Reads: stdReads([]uint64{10, 20}, 15), Phases: cfgPhases([]uint64{10, 20}, false, nil)})
+	// datastore defect met by the branch histories: a restart loses the head of master when its
+	// committed leaf has a child on the branch only (finding C16-lost-master-head, class 11)
+	cs = append(cs, CaseSpec{Name: "corpus-lost-master-head", Ops: []OpSpec{
+		post(10, `{"bodyid":10,"a":1}`), {Kind: "metapost", Meta: 1, Val: `{"x":1}`}, {Kind: "commit"},
+		{Kind: "branch", From: 0}, {Kind: "reload"}, {Kind: "newversion"}, post(20, `{"bodyid":20,"a":1}`)},
+		Reads: stdReads([]uint64{10, 20}, 15)})
 	// field merge rules
 	cs = append(cs, CaseSpec{Name: "corpus-stamps", Ops: []OpSpec{
 		post(7, `{"bodyid":7,"a":1,"s":"x","b":[1,2],"a_time":"2020-01-01T00:00:00Z"}`),
